@@ -132,7 +132,36 @@ class HighCardAny(pk.hands.Hand):
         return max(hs)
 
 
-HAND_TYPES = {'JQLow': JQLow, 'KuhnAny': KuhnAny, 'HighCardAny': HighCardAny}
+@dataclass
+class TwoCardLookup(pk.lookups.Lookup):
+    """Harness-defined two-card hands over the standard rank order: a pair beats any two unpaired cards."""
+    rank_order = pk.RankOrder.STANDARD
+
+    def _add_entries(self):
+        self._add_multisets(Counter({1: 2}), (False, True), pk.lookups.Label.HIGH_CARD)
+        self._add_multisets(Counter({2: 1}), (False,), pk.lookups.Label.ONE_PAIR)
+
+
+class TwoCardAny(pk.hands.Hand):
+    """Best two-card hand among hole and board cards (cheap hand type in which a board card can pair a hole card)."""
+    lookup = TwoCardLookup()
+    low = False
+
+    @classmethod
+    def from_game(cls, hole_cards, board_cards=()):
+        from itertools import combinations
+        cards = [c for c in chain(Card.clean(hole_cards), Card.clean(board_cards)) if c]
+        best = None
+        for comb in combinations(cards, 2):
+            h = cls(comb)
+            if best is None or h > best:
+                best = h
+        if best is None:
+            raise ValueError('no hand')
+        return best
+
+
+HAND_TYPES = {'JQLow': JQLow, 'KuhnAny': KuhnAny, 'HighCardAny': HighCardAny, 'TwoCardAny': TwoCardAny}
 DECKS = {'KUHN6': KUHN6, 'KUHN9': KUHN9}
 
 
